@@ -50,6 +50,7 @@ struct Dir
   std::vector<double> codir;   // empty: default (1,0,..)
   double bench = TEST, cylrad = TEST;
   std::vector<double> breaks;
+  int mirrorOf = -1;   // rank of the direction of the same VarioParam that has the opposite codir and otherwise equal parameters
   std::string cls() const
   {
     std::string s = breaks.empty() ? "regular" : "breaks";
@@ -87,6 +88,7 @@ struct RefDir
 {
   bool border = false;        // a pair sits on a class/angle/cylinder/bench border
   bool orientBorder = false;  // a pair is orthogonal to the direction (orientation undefined), matters for cross covariances
+  std::vector<char> orthoLag;  // per lag: such a pair fell into it
   int npairs = 0, rejected = 0;
   std::vector<std::vector<Acc>> acc;   // [ivar*(ivar+1)/2+jvar][slot]
 };
@@ -134,6 +136,7 @@ static RefDir referenceDir(const VCase& c, const Dir& D)
   bool asym = isAsym(c.calc);
   int nslot = asym ? 2 * npas + 1 : npas;
   r.acc.assign(nvar * (nvar + 1) / 2, std::vector<Acc>(nslot));
+  r.orthoLag.assign(npas, 0);
   std::vector<double> cd = D.codir;
   if (cd.empty()) { cd.assign(c.ndim, 0.); cd[0] = 1.; }
   double cn = 0; for (double v : cd) cn += v * v; cn = std::sqrt(cn);
@@ -177,7 +180,7 @@ static RefDir referenceDir(const VCase& c, const Dir& D)
       double wi = c.hasW ? c.w[i] : 1., wj = c.hasW ? c.w[j] : 1.;
       double ww = wi * wj;
       int orient = cosv > 0 ? 1 : -1;
-      if (std::fabs(cosv) < 1e-12) r.orientBorder = true;
+      if (std::fabs(cosv) < 1e-12) { r.orientBorder = true; r.orthoLag[k] = 1; }
       for (int iv = 0; iv < nvar; iv++)
         for (int jv = 0; jv <= iv; jv++)
         {
@@ -248,6 +251,45 @@ static std::string caseText(const VCase& c, int idir)
 }
 
 // run the real code on the case and judge every direction / variable pair / lag. returns #directions judged
+// Orientation convention of the asymmetric estimators. The property does not say which variable sits at the tail of an
+// oriented lag, but it must be ONE convention: it is read once, on a reference direction (codir = +x, tolang 45, three points
+// on a line, two variables), and every other direction / tolerance / dimension / sample order is then required to follow it
+// with respect to its own codir. +1: as the reference model (slot +k holds z_ivar(tail)*z_jvar(head), ivar > jvar);
+// -1: reversed; 2: calibration failed.
+static int g_orient = 0;
+static std::string g_orientText;
+static void calibrateOrientation()
+{
+  VCase c; c.calc = COVARIANCE_NC;
+  c.x = {{0, 0, 0}, {1, 0, 0}, {2, 0, 0}};
+  c.z = {{1, 2, 4}, {3, 0, 5}};
+  Dir D; D.npas = 3; D.dpas = 1; D.toldis = 0.5; D.tolang = 45; D.codir = {1, 0};
+  c.dirs = {D};
+  Db* db = buildDb(c);
+  VarioParam vp = buildParam(c);
+  Vario* v = Vario::computeFromDb(vp, db, calcEnum(c.calc), false, false, nullptr, 0, false);
+  g_orient = 2;
+  if (v != nullptr)
+  {
+    RefDir r = referenceDir(c, D);
+    VectorDouble gg = v->getGgVec(0, 1, 0, false, false, false);
+    const std::vector<Acc>& A = r.acc[1];
+    int nslot = 2 * D.npas + 1;
+    bool same = (int)gg.size() == nslot, rev = same;
+    for (int s = 0; s < nslot && (int)gg.size() == nslot; s++)
+    {
+      if (s == D.npas || A[s].sw <= 0) continue;
+      double ref = A[s].sg / A[s].sw;
+      if (!close(gg[s], ref, 1e-12)) same = false;
+      if (!close(gg[nslot - 1 - s], ref, 1e-12)) rev = false;
+    }
+    if (same && !rev) g_orient = 1;
+    if (rev && !same) g_orient = -1;
+    g_orientText = "reference direction +x on points 0,1,2 with z1=(1,2,4), z2=(3,0,5): cross covariance_nc gg=" + vstr(gg);
+  }
+  delete v; delete db;
+}
+
 // Optional arguments (used by the grid parts): dbUse / vpUse = run on this Db with this VarioParam instead of the ones built
 // from the case; refUse = reference per direction computed by the caller; keep = hand the Vario back instead of deleting
 // it; clsUse = direction class for the finding key; extra = text appended to the description of the case.
@@ -285,10 +327,12 @@ static int runAndJudge(Ctx& C, const VCase& c, const std::string& kase, uint64_t
     if (!dbUse) delete db;
     return 0;
   }
+  std::vector<RefDir> allRefs(c.dirs.size());
   for (int idir = 0; idir < (int)c.dirs.size(); idir++)
   {
     const Dir& D = c.dirs[idir];
     RefDir r = refUse ? (*refUse)[idir] : referenceDir(c, D);
+    allRefs[idir] = r;
     if (r.border) { C.skip(); C.outcome("excluded:pair-on-a-class/angle/cylinder/bench-border"); continue; }
     judged++;
     int npas = D.breaks.empty() ? D.npas : (int)D.breaks.size() - 1;
@@ -307,24 +351,17 @@ static int runAndJudge(Ctx& C, const VCase& c, const std::string& kase, uint64_t
           C.violation(std::string(channel) + ":vector-size:" + kcls, "getters return " + std::to_string(sw.size()) + "/" + std::to_string(hh.size()) + "/" + std::to_string(gg.size()) + " values for " + std::to_string(nslot) + " lags" + where(0), kase);
           bad = true; break;
         }
-        // orientation convention of asymmetric estimators: as is, or globally reversed
+        // orientation convention of asymmetric estimators: the one read on the reference direction, for every direction
         bool flip = false;
         if (asym && iv != jv)
         {
-          if (r.orientBorder) { C.outcome("excluded:cross-covariance-with-a-pair-orthogonal-to-the-direction"); continue; }
-          double e0 = 0, e1 = 0;
-          for (int s = 0; s < nslot; s++)
+          if (g_orient == 2)
           {
-            if (s == npas || A[s].sw <= 0) continue;
-            double g0 = gg[s], g1 = gg[nslot - 1 - s];
-            if (FFFF(g0) || FFFF(g1)) continue;
-            double ref = A[s].sg / A[s].sw;
-            // centring cancels in the difference of the two candidates; compare on the raw shape
-            e0 += std::fabs((g0 - g1) - (ref - A[nslot - 1 - s].sg / std::max(A[nslot - 1 - s].sw, 1e-300)));
-            e1 += std::fabs((g1 - g0) - (ref - A[nslot - 1 - s].sg / std::max(A[nslot - 1 - s].sw, 1e-300)));
+            C.violation(std::string(channel) + ":orientation-convention:calibration", "the cross-covariance of the reference direction matches neither orientation convention: " + g_orientText, kase);
+            bad = true; break;
           }
-          flip = e1 < e0;
-          C.outcome(flip ? "info:cross-covariance-orientation=reversed-w.r.t.-reference" : "info:cross-covariance-orientation=as-reference");
+          flip = g_orient == -1;
+          C.outcome(r.orientBorder ? "cross-covariance:lags-holding-a-pair-orthogonal-to-codir-not-judged-on-gg" : "cross-covariance:orientation-judged-against-the-run-wide-convention");
         }
         // global means for the centred covariance
         double m1 = 0, m2 = 0;
@@ -370,6 +407,12 @@ static int runAndJudge(Ctx& C, const VCase& c, const std::string& kase, uint64_t
           // --- defining average
           bool judgeG = c.calc <= COVARIANCE_NC || ((c.calc == TRANS1 || c.calc == TRANS2 || c.calc == BINORMAL) && iv == jv);
           if (asym) for (auto& zz : c.z) for (double t : zz) if (FFFF(t)) judgeG = false;   // covariances: isotopic data only
+          if (asym && iv != jv)
+          {
+            // a pair exactly orthogonal to codir has no orientation: the cross terms of the lag that holds it are not judged
+            int lag = s > npas ? s - npas - 1 : npas - 1 - s;
+            if (lag >= 0 && lag < (int)r.orthoLag.size() && r.orthoLag[lag]) judgeG = false;
+          }
           if (!judgeG) continue;
           double rg = a.sg / a.sw;
           if (c.calc == COVARIANCE) rg -= m1 * m2;
@@ -383,6 +426,43 @@ static int runAndJudge(Ctx& C, const VCase& c, const std::string& kase, uint64_t
     if (bad) C.outcome("VIOLATION-direction");
     else C.outcome(r.npairs == 0 ? "ok:no-pair-in-any-lag" : r.rejected ? "ok:some-pairs-kept-some-rejected" : "ok:all-pairs-kept");
   }
+  // metamorphic: computing along -codir swaps the + and - sides of every asymmetric term (no convention involved)
+  if (asym)
+    for (int idir = 0; idir < (int)c.dirs.size(); idir++)
+    {
+      int m = c.dirs[idir].mirrorOf;
+      if (m < 0 || m >= (int)c.dirs.size()) continue;
+      const RefDir& r = allRefs[idir];
+      if (r.border || allRefs[m].border) continue;
+      int npas = c.dirs[idir].breaks.empty() ? c.dirs[idir].npas : (int)c.dirs[idir].breaks.size() - 1;
+      int nslot = 2 * npas + 1;
+      bool bad = false, any = false;
+      C.eval();
+      for (int iv = 0; iv < nvar && !bad; iv++)
+        for (int jv = 0; jv <= iv && !bad; jv++)
+        {
+          VectorDouble s1 = v->getSwVec(idir, iv, jv, false), h1 = v->getHhVec(idir, iv, jv, false), g1 = v->getGgVec(idir, iv, jv, false, false, false);
+          VectorDouble s2 = v->getSwVec(m, iv, jv, false), h2 = v->getHhVec(m, iv, jv, false), g2 = v->getGgVec(m, iv, jv, false, false, false);
+          if ((int)s1.size() != nslot || (int)s2.size() != nslot) continue;
+          for (int s = 0; s < nslot; s++)
+          {
+            if (s == npas) continue;
+            int lag = s > npas ? s - npas - 1 : npas - 1 - s;
+            if (r.orthoLag[lag]) continue;
+            int t = nslot - 1 - s;
+            bool ok = close(s1[s], s2[t], 1e-12);
+            if (ok && s1[s] > 0) { any = true; ok = close(h1[s], -h2[t], 1e-12) && !FFFF(g1[s]) && !FFFF(g2[t]) && std::fabs(g1[s] - g2[t]) <= 1e-10 * gscale; }
+            if (!ok)
+            {
+              C.violation(std::string(channel) + ":mirror-direction:" + calcName[c.calc] + (iv != jv ? ":cross" : ""),
+                          "along codir slot " + std::to_string(s) + " holds sw/hh/gg " + fmt(s1[s]) + "/" + fmt(h1[s]) + "/" + fmt(g1[s]) + " but along -codir the opposite slot holds " + fmt(s2[t]) + "/" + fmt(h2[t]) + "/" + fmt(g2[t]) +
+                          " (direction #" + std::to_string(m) + " is the mirror) var(" + std::to_string(iv) + "," + std::to_string(jv) + ") :: " + caseText(c, idir) + extra, kase);
+              bad = true; break;
+            }
+          }
+        }
+      C.outcome(bad ? "VIOLATION:mirror-direction" : any ? "ok:-codir-swaps-the-sides" : "ok:-codir(no-pair)");
+    }
   if (nontriv) C.nontrivial(sig);
   if (!keep) delete v;
   if (!dbUse) delete db;
@@ -455,6 +535,26 @@ static std::vector<Dir> dirsSmall2D()
   Dir e; e.breaks = {0, 0.9, 1.6, 2.5}; out.push_back(e);
   return out;
 }
+// omni-like (tolang 90) and wide (tolang 50) directions along +-x, +-y, +-diagonals (3-D: +-axes, +-(1,1,0); 1-D: +-1);
+// consecutive entries are mirror images of each other (codir / -codir), which the asymmetric estimators must swap.
+static void addCodirMenu(std::vector<Dir>& dirs, int ndim, int npas, double dpas, double toldis)
+{
+  std::vector<std::vector<double>> cds;
+  if (ndim == 1) cds = {{1}, {-1}};
+  if (ndim == 2) cds = {{1, 0}, {-1, 0}, {0, 1}, {0, -1}, {1, 1}, {-1, -1}, {1, -1}, {-1, 1}};
+  if (ndim == 3) cds = {{1, 0, 0}, {-1, 0, 0}, {0, 1, 0}, {0, -1, 0}, {0, 0, 1}, {0, 0, -1}, {1, 1, 0}, {-1, -1, 0}};
+  for (double tol : {90., 50.})
+  {
+    if (ndim == 1 && tol != 90.) continue;
+    int base = (int)dirs.size();
+    for (size_t k = 0; k < cds.size(); k++)
+    {
+      Dir D; D.npas = npas; D.dpas = dpas; D.toldis = toldis; D.tolang = tol; D.codir = cds[k];
+      D.mirrorOf = base + (int)(k ^ 1);
+      dirs.push_back(D);
+    }
+  }
+}
 static int popcount(unsigned v) { return __builtin_popcount(v); }
 static const double VALS[4] = {0., 1., 3., TEST};
 
@@ -488,6 +588,7 @@ VF_PART(geometry_2d)
   setDim(2);
   std::vector<P3> all = lat2(3);
   std::vector<Dir> dirs = dirs2D(true);
+  addCodirMenu(dirs, 2, 3, 1., 0.5);
   Space sp;
   sp.axis("calc", 2).axis("subset", 512).axis("data", 3);
   auto valid = [&](const std::vector<int>& idx) { int pc = popcount(idx[1]); return pc >= 2 && pc <= (C.thorough() ? 9 : 6); };
@@ -536,6 +637,8 @@ VF_PART(multivar)
   setDim(2);
   std::vector<P3> all = lat2(3);
   std::vector<Dir> dirs = dirsSmall2D();
+  std::vector<Dir> dirsAsym = dirs;
+  addCodirMenu(dirsAsym, 2, 3, 1., 0.5);   // asymmetric estimators: omni-like / wide directions along +-x, +-y, +-diagonals
   // menu of value patterns for 2 and 3 variables on up to 6 samples (undefined values in various places)
   static const double NA = TEST;
   static const double Z1[4][6] = {{1, 3, 0, 2, 5, 4}, {1, NA, 0, 2, 5, 4}, {NA, 3, 0, NA, 5, 4}, {0, 0, 1, 1, 3, 3}};
@@ -567,7 +670,7 @@ VF_PART(multivar)
       q++;
     }
     c.hasW = idx[5] != 0; c.hasSel = idx[6] != 0;
-    c.dirs = dirs;
+    c.dirs = isAsym(c.calc) ? dirsAsym : dirs;
     runAndJudge(C, c, std::to_string(id), id);
     if (id % 300007 == 13) C.sample("{\"id\":" + std::to_string(id) + ",\"case\":" + jstr(caseText(c, 2)) + "}");
   });
@@ -588,6 +691,7 @@ VF_PART(order_translation)
       if (keep) dirs.push_back(D);
     }
   }
+  addCodirMenu(dirs, 2, 3, 1., 0.5);
   static const double tr[3][2] = {{0, 0}, {-8.5, 16.25}, {1024, -3.75}};
   Space sp;
   sp.axis("calc", 3).axis("translation", 3).axis("perm", 120).axis("subset", 512).axis("data", 2);
@@ -627,6 +731,7 @@ VF_PART(dim1)
   for (auto l : std::vector<std::array<double, 3>> {{3, 1, 0.5}, {6, 1, 0.25}, {4, 0.75, 0.25}, {3, 2, 0.5}})
   { Dir D; D.npas = (int)l[0]; D.dpas = l[1]; D.toldis = l[2]; D.codir = {1.}; dirs.push_back(D); }
   { Dir D; D.breaks = {0, 1.5, 2.5, 6}; D.codir = {1.}; dirs.push_back(D); }
+  addCodirMenu(dirs, 1, 4, 1., 0.25);
   Space sp;
   sp.axis("calc", 4).axis("reverse", 2).axis("values", 3).axis("subset", 128).axis("data", 3);
   for_each_case(C, sp, [&](uint64_t id, const std::vector<int>& idx) {
@@ -667,6 +772,7 @@ VF_PART(dim3)
           dirs.push_back(D);
           Dir E = D; E.npas = 4; E.dpas = 0.5; E.toldis = 0.25; dirs.push_back(E);
         }
+  addCodirMenu(dirs, 3, 4, 0.5, 0.25);
   Space sp;
   sp.axis("calc", 2).axis("subset", 1 << 12).axis("data", 3);
   auto valid = [&](const std::vector<int>& idx) {
@@ -693,6 +799,7 @@ VF_PART(larger_sets)
 {
   setDim(2);
   std::vector<Dir> dirs = dirs2D(true);
+  addCodirMenu(dirs, 2, 3, 1., 0.5);
   Space sp;
   sp.axis("calc", 4).axis("layout", 6).axis("weights", 2).axis("order", 3).axis("data", 2);
   for_each_case(C, sp, [&](uint64_t id, const std::vector<int>& idx) {
@@ -759,6 +866,7 @@ static RefDir gridReference(const GCase& g, const std::vector<int>& gi, double s
   bool asym = isAsym(g.calc);
   int nslot = asym ? 2 * npas + 1 : npas;
   r.acc.assign(nvar * (nvar + 1) / 2, std::vector<Acc>(nslot));
+  r.orthoLag.assign(npas, 0);
   int n = 1; for (int v : g.nn) n *= v;
   std::vector<int> ind(g.ndim), ind2(g.ndim);
   for (int a = 0; a < n; a++)
@@ -1012,5 +1120,5 @@ VF_PART(grid_3d)
 
 int main(int argc, char** argv)
 {
-  return run_main(argc, argv, [](Ctx&) { silence(); setDim(2); });
+  return run_main(argc, argv, [](Ctx&) { silence(); setDim(2); calibrateOrientation(); });
 }
